@@ -55,7 +55,14 @@ func runBulkheadSchedule(t *testing.T, cap int, maxWait int64, n, nsteps int, va
 		cancels := make([]context.CancelFunc, n)
 		for i := range gates {
 			gates[i] = make(chan bool)
-			ctxs[i], cancels[i] = context.WithCancel(context.Background())
+			if i%2 == 1 {
+				// every other context carries a cause of the caller's own: a turned-away execution still reports context.Canceled
+				var cc context.CancelCauseFunc
+				ctxs[i], cc = context.WithCancelCause(context.Background())
+				cancels[i] = func() { cc(errCallerCause) }
+			} else {
+				ctxs[i], cancels[i] = context.WithCancel(context.Background())
+			}
 		}
 		ext := 0
 		run := func(i int) {
@@ -90,8 +97,10 @@ func runBulkheadSchedule(t *testing.T, cap int, maxWait int64, n, nsteps int, va
 				status[i] = 3
 			case errors.Is(err, bulkhead.ErrFull):
 				status[i] = 4
-			default:
+			case errors.Is(err, context.Canceled):
 				status[i] = 5
+			default:
+				status[i] = 6 // turned away with anything else: no such status in the model
 			}
 		}
 		for len(steps) < nsteps {
@@ -121,7 +130,11 @@ func runBulkheadSchedule(t *testing.T, cap int, maxWait int64, n, nsteps int, va
 			case c < 17 && len(holding) > 0:
 				s = kStep{K: "CancelCtx", I: Pick(rng, holding)} // cancelled while holding: still releases when it finishes
 			case c < 20:
-				s = kStep{K: "Tick", Dt: Pick(rng, []int64{1, maxWait - 1, maxWait, maxWait + 1, 1 + rng.I64n(maxWait+2), maxWait / 2})}
+				mwAbs := maxWait
+				if mwAbs < 0 {
+					mwAbs = -mwAbs
+				}
+				s = kStep{K: "Tick", Dt: Pick(rng, []int64{1, mwAbs - 1, mwAbs, mwAbs + 1, 1 + rng.I64n(mwAbs+2), mwAbs / 2})}
 				if s.Dt < 0 {
 					s.Dt = 0
 				}
@@ -191,7 +204,7 @@ func TestDrive_C06(t *testing.T) {
 	}
 	for it := 0; it < n; it++ {
 		cap := rng.Intn(5)
-		maxWait := Pick(rng, []int64{0, 0, 1, 5_000_000, 60_000_000_000})
+		maxWait := Pick(rng, []int64{0, 0, 1, 5_000_000, 60_000_000_000, -1, -5_000_000}) // (a negative wait has already elapsed: no waiting)
 		nth := 1 + rng.Intn(10)
 		variant := make([]string, nth)
 		for i := range variant {
@@ -211,7 +224,7 @@ func TestDrive_C06(t *testing.T) {
 		w.Stat("max_holding=" + bucket(maxHold))
 		sl, ol := gList(ss), gList(snaps)
 		w.Add(func(id int) string {
-			return fmt.Sprintf("mk_case %d %d %d %d%%nat %d\n  %s\n  %s %d", id, cap, maxWait, nth, start, sl, ol, free)
+			return fmt.Sprintf("mk_case %d %d %s %d%%nat %d\n  %s\n  %s %d", id, cap, gZ(maxWait), nth, start, sl, ol, free)
 		}, map[string]any{"max_concurrency": cap, "max_wait_ns": maxWait, "executions": nth, "variants": variant, "schedule": strings.Join(ss, "; "),
 			"status_after_each_step": strings.Join(snaps, "; "), "free_permits_at_the_end": free}, maxHold >= 1 && waited, fmt.Sprint(cap, maxWait, sl))
 	}
@@ -310,6 +323,6 @@ func TestDrive_C06(t *testing.T) {
 			w.Stat("balance_probe=" + kind)
 		}
 	}
-	w.Close("schedules of 8-52 atomic steps over 1-10 executions (plain, under Fallback/Timeout/Retry, async) and standalone callers sharing one bulkhead (maxConcurrency 0-4, max wait 0 / 1ns / 5ms / 1min) in a virtual-time bubble: an execution reaches the bulkhead, an admitted execution's function finishes (success or failure), an execution's context is cancelled (while waiting or while holding), the clock advances (1ns, wait-1, wait, wait+1, random), standalone TryAcquirePermit / ReleasePermit. After every step the status of every execution (idle / waiting / holding / released / refused with ErrFull / cancelled with the context error); at the end the number of free permits is probed. Balance probes: executions arriving with a cancelled context; a hedge policy around the bulkhead (several attempts of one execution hold permits at once), around retry+bulkhead, a bulkhead around a full bulkhead, a function returning ErrFull itself: afterwards every permit must be free. Non-trivial = some execution held a permit and some execution waited; distinct by (configuration, schedule).", nil)
+	w.Close("schedules of 8-52 atomic steps over 1-10 executions (plain, under Fallback/Timeout/Retry, async) and standalone callers sharing one bulkhead (maxConcurrency 0-4, max wait 0 / 1ns / 5ms / 1min / negative; every other context cancelled with a cause of the caller's own) in a virtual-time bubble: an execution reaches the bulkhead, an admitted execution's function finishes (success or failure), an execution's context is cancelled (while waiting or while holding), the clock advances (1ns, wait-1, wait, wait+1, random), standalone TryAcquirePermit / ReleasePermit. After every step the status of every execution (idle / waiting / holding / released / refused with ErrFull / cancelled with the context error); at the end the number of free permits is probed. Balance probes: executions arriving with a cancelled context; a hedge policy around the bulkhead (several attempts of one execution hold permits at once), around retry+bulkhead, a bulkhead around a full bulkhead, a function returning ErrFull itself: afterwards every permit must be free. Non-trivial = some execution held a permit and some execution waited; distinct by (configuration, schedule).", nil)
 	driveC06Probes(t)
 }
